@@ -249,6 +249,24 @@ var writerRules = map[string][]writerRule{
 		Recv:    map[string]bool{"Keeper": true, "Migrator": true},
 		Allow:   map[string]string{},
 	}},
+	"C09": {{
+		Prop: "C09", What: "bid records",
+		Pkgs:    []string{"x/rns/keeper", "x/rns"},
+		Writers: map[string]bool{"SetBids": true, "RemoveBids": true},
+		Recv:    map[string]bool{"Keeper": true, "msgServer": true},
+		Allow: map[string]string{
+			"x/rns.InitGenesis": "genesis import (C19); not a transaction path",
+		},
+	}},
+	"C08": {{
+		Prop: "C08", What: "name records and listings",
+		Pkgs:    []string{"x/rns/keeper", "x/rns"},
+		Writers: map[string]bool{"SetNames": true, "RemoveNames": true, "SetForsale": true, "RemoveForsale": true},
+		Recv:    map[string]bool{"Keeper": true, "msgServer": true},
+		Allow: map[string]string{
+			"x/rns.InitGenesis": "genesis import (C19); not a transaction path",
+		},
+	}},
 	"C01": {{
 		Prop: "C01", What: "proof records and prover lists",
 		Pkgs:    []string{"x/storage/keeper", "x/storage/types", "x/storage"},
@@ -358,7 +376,7 @@ func (w *Workspace) structuralWriters(prop string) *FuncResult {
 					label = "writer_under_contract:" + mangle(rule.What) + ":" + mangle(relName(top))
 				}
 				switch {
-				case ct != nil && !ct.Trusted && contains(ct.Props, prop):
+				case ct != nil && !ct.Trusted && contractServes(ct, prop):
 					res.Obls = append(res.Obls, structural(topKey, label, []string{prop}, true, fmt.Sprintf("calls %s; the function is under a %s contract", strings.Join(hits, ", "), prop)))
 				case rule.Allow[topKey] != "":
 					res.Notes = append(res.Notes, fmt.Sprintf("%s calls %s: accepted, %s", topKey, strings.Join(hits, ", "), rule.Allow[topKey]))
